@@ -42,41 +42,19 @@ def run(prog: Program, res: Result, tier: str) -> None:
     else:
         res.bad("R1", None, tnode, f"header_keys contains formats {sorted(fmts - {'b', 'I', 'd', 'str'})} the codec does not handle",
                 key=key, where=f"{SIG}::header_keys")
-    ph = prog.func(SIG, "parse_header")
-    src = norm(ph.node)
-    checks = [
-        ("parser reads the format from header_keys[key]", "key_fmt = header_keys[key]" in src),
-        ("'str' keys go through _read_string", "if key_fmt == 'str': header[key] = _read_string(fp)" in src),
-        ("numeric keys: struct.unpack(fmt, read(calcsize(fmt)))[0]",
-         "header[key] = struct.unpack(key_fmt, fp.read(struct.calcsize(key_fmt)))[0]" in src),
-        ("parser requires HEADER_START and stops at HEADER_END", "if key != 'HEADER_START':" in src and "if key == 'HEADER_END': break" in src),
-        ("hdrlen is the stream position after HEADER_END", "header['hdrlen'] = fp.tell()" in src),
-    ]
-    for what, ok in checks:
-        (res.ok if ok else res.bad)("R1", ph, ph.node, what if ok else f"parse_header no longer satisfies: {what}", construct=what, key=f"parse:{what[:40]}")
-    rs = prog.func(SIG, "_read_string")
-    src = norm(rs.node)
-    ok = "strlen = struct.unpack('I', fp.read(struct.calcsize('I')))[0]" in src and "return fp.read(strlen).decode()" in src
-    (res.ok if ok else res.bad)("R1", rs, rs.node, "strings are read as <uint32 length><bytes>" if ok else
-                                "_read_string no longer reads an 'I' length prefix followed by that many bytes", construct="_read_string", key="read_string")
-    ek = prog.func(SIG, "encode_key")
-    src = norm(ek.node)
-    packs = [c for c in calls_in_body(ek.node) if dotted(c.func) == "struct.pack"]
-    prefix_ok = all(norm(c.args[0]) in ("'I'", "value_type") for c in packs) and sum(1 for c in packs if norm(c.args[0]) == "'I'") >= 4
-    okk = prefix_ok and "struct.pack('I', len(key)) + key.encode() + struct.pack('I', len(value)) + value.encode()" in src and \
-        "struct.pack('I', len(key)) + key.encode() + struct.pack(value_type, value)" in src and \
-        "if value is None: return struct.pack('I', len(key)) + key.encode()" in src
-    (res.ok if okk else res.bad)("R1", ek, ek.node, "encode_key writes <uint32 len><key>[<uint32 len><str> | pack(fmt, value)]" if okk else
-                                 "encode_key no longer mirrors the parser's layout ('I' length prefixes, value packed with the table format)",
-                                 construct="encode_key", key="encode_key")
-    eh = prog.func(SIG, "encode_header")
-    src = norm(eh.node)
-    oke = "hdr_encoded = encode_key('HEADER_START')" in src and "hdr_encoded += encode_key('HEADER_END')" in src and \
-        "if key not in header_keys: continue" in src and "hdr_encoded += encode_key(key, value=value, value_type=header_keys[key])" in src
-    (res.ok if oke else res.bad)("R1", eh, eh.node, "encode_header frames with HEADER_START/END and encodes each recognised key with header_keys[key]"
-                                 if oke else "encode_header no longer encodes every recognised key with its table format between the frame markers",
-                                 construct="encode_header", key="encode_header")
-
+    from .. import kernelspec
+    for name, what in (
+            ("parse_header", "parser: HEADER_START required, keys read until HEADER_END, format from header_keys[key], 'str' keys via _read_string, numbers "
+             "via struct.unpack(fmt, read(calcsize(fmt)))[0]; hdrlen = position after HEADER_END; datalen = filelen - hdrlen"),
+            ("_read_string", "strings are <uint32 length><bytes>"),
+            ("encode_key", "encoder: <uint32 len><key>[<uint32 len><str> | pack(table format, value)]"),
+            ("encode_header", "HEADER_START, every recognised key encoded with header_keys[key] in dict order, HEADER_END")):
+        fn = prog.func(SIG, name)
+        verdict, why = kernelspec.compare(fn, name)
+        if verdict == "incomparable":
+            raise AnalysisError(f"{name} cannot be compared with its reference definition: {why[0]}")
+        (res.ok if verdict == "same" else res.bad)("R1", fn, fn.node, (what if verdict == "same" else f"{name} differs from its definition: " + ("; ".join(why))[:500]),
+                                                   construct=name, key=f"{name}:definition")
     # ---- R2 key coverage -------------------------------------------------------------------------
     hdr = prog.cls(HEADER, "Header")
     fields = set(hdr.attrs_fields)
@@ -312,7 +290,7 @@ def run(prog: Program, res: Result, tier: str) -> None:
     else:
         res.bad("R5", ed, ed.node, "an unknown key is not rejected before the file is read/opened", construct="edit_header", key=key)
 
-    res.floor("R1", 9)
+    res.floor("R1", 5)
     res.floor("R2", 30)
     res.floor("R3", 6)
     res.floor("R4", 2)
@@ -369,6 +347,9 @@ MUTANTS += [
      "new": "            \"pulsarcentric\": 1 if self.frame == \"barycentric\" else 0,\n            \"barycentric\": 1 if self.frame == \"pulsarcentric\" else 0,"},
 ]
 TWINS = [
+    {"id": "c05-twin-parse-temp", "file": S,
+     "old": "                header[key] = struct.unpack(key_fmt, fp.read(struct.calcsize(key_fmt)))[\n                    0\n                ]",
+     "new": "                nbytes = struct.calcsize(key_fmt)\n                header[key] = struct.unpack(key_fmt, fp.read(nbytes))[0]"},
     {"id": "c05-twin-frame-nested", "file": H,
      "old": "        header = fbh5.parse_header(filename)\n        frame = \"topocentric\"\n        if header.get(\"pulsarcentric\"):\n            frame = \"pulsarcentric\"\n        if header.get(\"barycentric\"):\n            frame = \"barycentric\"\n",
      "new": "        header = fbh5.parse_header(filename)\n        frame = \"barycentric\" if header.get(\"barycentric\") else (\n            \"pulsarcentric\" if header.get(\"pulsarcentric\") else \"topocentric\"\n        )\n"},
